@@ -43,6 +43,7 @@ let str_chunks (cs : M.n list M.chunk list) =
     String.concat ";" [string_of_z c.M.lStart; string_of_z c.M.lEnd; string_of_z c.M.rStart; string_of_z c.M.rEnd;
                        str_edits c.M.edits]) cs)
 
+let is_panic_str s = String.length s >= 6 && String.sub s 0 6 = "panic:"
 let panic_str = function M.PIndex -> "panic:index" | M.PNil -> "panic:nil" | M.PMerge -> "panic:other"
 
 (* ---- histories: H <ops> <script> <lhs> <rhs> / HC <ops> <lhs> <rhs> *)
@@ -89,6 +90,128 @@ let eval_hist (ops, script, lhs, rhs) =
       String.concat "!" (List.map (function M.Ok cs -> str_chunks cs | M.Panic k -> panic_str k) stages) in
     "E=" ^ str_edits es ^ " N=" ^ str_chunks c0 ^ " H=" ^ hs ^ " K=" ^ (if panicked then "-" else "111")
 
+(* ---- S / SC lines: texts named by a recipe, outputs digested (harness/cmd/mdifftrace/scale.go) *)
+
+let fnv64 (s : string) : string =
+  let h = ref 0xcbf29ce484222325L in
+  String.iter (fun c -> h := Int64.mul (Int64.logxor !h (Int64.of_int (Char.code c))) 0x100000001b3L) s;
+  Printf.sprintf "%016Lx" !h
+
+let line_tbl : (int, M.n list) Hashtbl.t = Hashtbl.create 1024
+let line_of_int v : M.n list =
+  if v = 0 then [] else
+  match Hashtbl.find_opt line_tbl v with
+  | Some l -> l
+  | None ->
+    let t = string_of_int v in
+    let l = List.init (String.length t) (fun i -> n_of_int (Char.code t.[i])) in
+    Hashtbl.replace line_tbl v l; l
+
+exception Bad_recipe
+
+(* recipe -> (lhs, rhs) *)
+let build_texts (recipe : string) : M.n list list * M.n list list =
+  let l = ref [] and r = ref [] and total = ref 0 in
+  let int_ s = match int_of_string_opt s with Some n when n >= 0 -> n | _ -> raise Bad_recipe in
+  if recipe <> "." then
+    List.iter (fun gs ->
+      let gs, reps = match String.index_opt gs '*' with
+        | Some i -> String.sub gs 0 i, int_ (String.sub gs (i + 1) (String.length gs - i - 1))
+        | None -> gs, 1 in
+      let items = List.map (fun is ->
+        if String.length is < 2 then raise Bad_recipe;
+        let kind = is.[0] in
+        if kind <> 'e' && kind <> 'd' && kind <> 'c' then raise Bad_recipe;
+        match List.map int_ (String.split_on_char '.' (String.sub is 1 (String.length is - 1))) with
+        | [c; p; o] when p >= 1 -> (kind, c, p, o, 1)
+        | [c; p; o; rl] when p >= 1 && rl >= 1 -> (kind, c, p, o, rl)
+        | _ -> raise Bad_recipe) (String.split_on_char '/' gs) in
+      for _ = 1 to reps do
+        List.iter (fun (kind, c, p, o, rl) ->
+          total := !total + c;
+          if !total > 40000 then raise Bad_recipe;
+          for j = 0 to c - 1 do
+            let t = line_of_int (o + (j / rl) mod p) in
+            if kind <> 'c' then l := t :: !l;
+            if kind <> 'd' then r := t :: !r
+          done) items
+      done) (String.split_on_char ',' recipe);
+  (List.rev !l, List.rev !r)
+
+(* the oracle by lengths -> the edits, taken from the texts at the running offsets *)
+let decode_oracle (s : string) (lhs : M.n list list) (rhs : M.n list list) : M.n list M.edit list =
+  if s = "." then [] else
+  let la = Array.of_list lhs and ra = Array.of_list rhs in
+  let lp = ref 0 and rp = ref 0 in
+  let take a p k = if k < 0 || !p + k > Array.length a then failwith "oracle runs past the end of the text"
+    else (let x = Array.to_list (Array.sub a !p k) in p := !p + k; x) in
+  let num t = int_of_string (String.sub t 1 (String.length t - 1)) in
+  let out = ref [] in
+  List.iter (fun gs ->
+    let gs, reps = match String.index_opt gs '*' with
+      | Some i -> String.sub gs 0 i, int_of_string (String.sub gs (i + 1) (String.length gs - i - 1))
+      | None -> gs, 1 in
+    let toks = String.split_on_char '/' gs in
+    for _ = 1 to reps do
+      List.iter (fun t ->
+        let e = match t.[0] with
+          | 'E' -> let k = num t in let x = take la lp k in rp := !rp + k; { M.eop = M.Emit; M.x = x; M.y = [] }
+          | 'D' -> { M.eop = M.Drop; M.x = take la lp (num t); M.y = [] }
+          | 'C' -> { M.eop = M.Copy; M.x = []; M.y = take ra rp (num t) }
+          | 'R' -> (match String.split_on_char '.' (String.sub t 1 (String.length t - 1)) with
+                    | [a; b] -> let x = take la lp (int_of_string a) in
+                      { M.eop = M.Replace; M.x = x; M.y = take ra rp (int_of_string b) }
+                    | _ -> failwith ("bad oracle token " ^ t))
+          | _ -> failwith ("bad oracle token " ^ t) in
+        out := e :: !out) toks
+    done) (String.split_on_char ',' s);
+  List.rev !out
+
+let stage_digest (cs : M.n list M.chunk list) =
+  let ne = List.fold_left (fun a c -> a + List.length c.M.edits) 0 cs in
+  let ctx = List.fold_left (fun a c ->
+    List.fold_left (fun a (e : M.n list M.edit) -> if e.M.eop = M.Emit then a + List.length e.M.x else a) a c.M.edits) 0 cs in
+  Printf.sprintf "%d:%d:%d:%s" (List.length cs) ne ctx (fnv64 (str_chunks cs))
+
+let parse_scale inp =
+  match words inp with
+  | ["S"; ops; oracle; recipe] -> Some (ops, Some oracle, recipe)
+  | ["SC"; ops; recipe] -> Some (ops, None, recipe)
+  | _ -> None
+
+(* what eval computed for the last S line: the spec re-uses the texts, and -- when the implementation's
+   digests are the model's, i.e. its chunks are these chunks -- evaluates the reference on them *)
+type scale_memo = { s_inp : string; s_out : string; s_ops : M.hop list; s_lhs : M.n list list; s_rhs : M.n list list;
+                    s_es : M.n list M.edit list; s_cn : M.n list M.chunk list; s_stages : M.n list M.chunk list list }
+let scale_last : scale_memo option ref = ref None
+
+let eval_scale inp (opss, oracle, recipe) =
+  scale_last := None;
+  match (try Some (build_texts recipe) with Bad_recipe -> None) with
+  | None -> "?"
+  | Some (lhs, rhs) ->
+  let ops = parse_ops opss in
+  match oracle with
+  | Some o when is_panic_str o -> "ORACLE-PANIC"
+  | _ ->
+  match (match oracle with
+         | None -> (match M.edit_script_run leq lhs rhs with M.EOk es -> Some es | _ -> None)
+         | Some o -> Some (decode_oracle o lhs rhs)) with
+  | None -> "MODEL-OF-EDITSCRIPT-PANICS"
+  | Some es ->
+    if not (M.script_okb leq lhs rhs es) then "BAD-ORACLE: the recorded script does not transform lhs into rhs" else
+    let c0 = M.new_chunks es in
+    let stages = M.run_trace leq lhs rhs c0 ops in
+    let panicked = List.exists (function M.Panic _ -> true | _ -> false) stages in
+    let hs = if stages = [] then "none" else
+      String.concat "!" (List.map (function M.Ok cs -> stage_digest cs | M.Panic k -> panic_str k) stages) in
+    let out = Printf.sprintf "E=%d:%s N=%s H=%s %s" (List.length es) (fnv64 (str_edits es)) (stage_digest c0) hs
+        (if panicked then "K=- P=-" else "K=111 P=ok") in
+    if not panicked then
+      scale_last := Some { s_inp = inp; s_out = out; s_ops = ops; s_lhs = lhs; s_rhs = rhs; s_es = es; s_cn = c0;
+                           s_stages = List.filter_map (function M.Ok cs -> Some cs | M.Panic _ -> None) stages };
+    out
+
 let eval_unify s =
   match M.unify_chunks (parse_chunks s) with
   | M.Ok cs -> "U=" ^ str_chunks cs
@@ -98,6 +221,9 @@ let eval inp =
   match words inp with
   | ["U"; s] -> eval_unify s
   | _ ->
+  match parse_scale inp with
+  | Some sc -> eval_scale inp sc
+  | None ->
   match parse_hist inp with
   | Some h -> eval_hist h
   | None ->
@@ -171,13 +297,9 @@ let ctx_step n (c0 : M.n list M.chunk) (c1 : M.n list M.chunk) =
 let unify_groups (prev : M.n list M.chunk list) (cur : M.n list M.chunk list) =
   List.map M.span_of cur = M.unified_spans prev
 
-let spec_hist (ops, _script, lhs, rhs) out =
-  match field out "E", field out "N", field out "H", field out "K" with
-  | Some e, Some ns, Some h, Some k ->
-    if is_panic ns then Some "New panicked" else
-    let es = parse_edits e and cn = parse_chunks ns in
-    let stages = if h = "none" then [] else String.split_on_char '!' h in
-    if List.exists is_panic stages then Some "a call panicked (history)" else
+(* the property on a history, on parsed values: es = d.Edits, cn = the chunks after New,
+   stages = the chunks after every call *)
+let spec_hist_core ops lhs rhs es cn (stages : M.n list M.chunk list list) =
     if List.length stages <> List.length ops then Some "history: wrong number of stages" else
     (if M.script_okb leq lhs rhs es then None else Some "d.Edits does not transform Left into Right")
     >>= fun () -> all_ok "New" lhs rhs cn
@@ -185,8 +307,7 @@ let spec_hist (ops, _script, lhs, rhs) out =
       let rec go i prev ops stages =
         match ops, stages with
         | [], _ | _, [] -> None
-        | o :: ops', s :: stages' ->
-          let cs = parse_chunks s in
+        | o :: ops', cs :: stages' ->
           let name = Printf.sprintf "call %d" i in
           all_ok name lhs rhs cs
           >>= fun () -> (if nonemit_edits cs = M.changes es then None else Some ("after " ^ name ^ ": the chunks' non-context edits are not those of the script"))
@@ -205,6 +326,14 @@ let spec_hist (ops, _script, lhs, rhs) out =
                else Some ("after " ^ name ^ " (AddContext): a chunk is not the chunk before with at most n context lines before and after"))
           >>= fun () -> go (i + 1) cs ops' stages' in
       go 1 cn ops stages
+
+let spec_hist (ops, _script, lhs, rhs) out =
+  match field out "E", field out "N", field out "H", field out "K" with
+  | Some e, Some ns, Some h, Some k ->
+    if is_panic ns then Some "New panicked" else
+    let stages = if h = "none" then [] else String.split_on_char '!' h in
+    if List.exists is_panic stages then Some "a call panicked (history)" else
+    spec_hist_core ops lhs rhs (parse_edits e) (parse_chunks ns) (List.map parse_chunks stages)
     >>= fun () -> (if k = "111" then None else Some ("aliasing: d.Edits / inputs disturbed or receiver not returned, flags " ^ k))
   | _ -> Some "bad output syntax"
 
@@ -217,9 +346,32 @@ let spec_unify s out =
     else Some "UnifyChunks: the ranges of the result are not the runs of touching chunks of the input"
   | None -> Some "bad output syntax"
 
+(* S / SC lines.  The chunks themselves are behind digests: the property was decided by the harness
+   on the implementation's chunks (field P, by direct definition, see scale.go) and is reported
+   here; when the implementation's output is digest for digest what the model computed, its chunks
+   are the model's and the extracted reference checkers are evaluated on them as well (they walk
+   the texts from the start for every chunk: skipped when lines x chunks exceeds a million). *)
+let spec_scale inp out =
+  match field out "N", field out "H", field out "K", field out "P" with
+  | Some ns, Some h, Some k, Some p ->
+    if is_panic ns then Some "New panicked" else
+    if List.exists is_panic (String.split_on_char '!' h) then Some "a call panicked (history)" else
+    (if p = "ok" then None else Some ("the property fails on the implementation's chunks: " ^ p))
+    >>= fun () -> (if k = "111" then None else Some ("aliasing: d.Edits / inputs disturbed or receiver not returned, flags " ^ k))
+    >>= fun () ->
+      (match !scale_last with
+       | Some m when m.s_inp = inp && m.s_out = out
+                     && (List.length m.s_lhs + List.length m.s_rhs) * (List.length m.s_cn + 1) <= 1_000_000 ->
+         (match spec_hist_core m.s_ops m.s_lhs m.s_rhs m.s_es m.s_cn m.s_stages with
+          | Some r -> Some ("reference checkers on the chunks behind the digests: " ^ r)
+          | None -> None)
+       | _ -> None)
+  | _ -> if out = "?" then None else Some "bad output syntax"
+
 let spec prop inp out =
   match words inp with
   | ["U"; s] when prop = "C13" -> spec_unify s out
+  | ("S" | "SC") :: _ when prop = "C13" -> spec_scale inp out
   | _ ->
   match parse_hist inp with
   | Some h when prop = "C13" -> spec_hist h out
